@@ -342,6 +342,8 @@ pub struct NodeSpec {
     pub jitter: Duration,
     /// build the network with a (pass-through) user outbound request layer
     pub user_outbound_layer: bool,
+    /// ... which holds every request back for this long before forwarding it (a throttle)
+    pub user_outbound_delay: Duration,
     /// let the harness switch on settings that must not change any behaviour the scenario looks
     /// at (huge default timeouts, a huge connection limit, an alternate network name, a
     /// pass-through outbound layer, a tiny mailbox, ...): correctness must not silently depend on
@@ -373,6 +375,7 @@ impl World {
             config,
             jitter: Duration::from_millis(0),
             user_outbound_layer: false,
+            user_outbound_delay: Duration::ZERO,
             vary_benign: true,
         }
     }
@@ -446,7 +449,14 @@ impl World {
         }
         if spec.user_outbound_layer {
             type Inner = tower::util::BoxService<Request<Bytes>, Response<Bytes>, anemo::Error>;
-            b = b.outbound_request_layer(tower::layer::layer_fn(|inner: Inner| inner));
+            let delay = spec.user_outbound_delay;
+            b = b.outbound_request_layer(tower::layer::layer_fn(move |inner: Inner| -> Inner {
+                if delay.is_zero() {
+                    inner
+                } else {
+                    tower::util::BoxService::new(HoldBack { inner: Arc::new(tokio::sync::Mutex::new(inner)), delay })
+                }
+            }));
         }
         let net = b.start(service).map_err(|e| anyhow::anyhow!("start failed: {e}"))?;
         assert_eq!(net.peer_id(), peer_id);
@@ -459,6 +469,33 @@ impl World {
             peer_id,
             net,
             rt,
+        })
+    }
+}
+
+/// A user outbound layer that does not forward at once (a throttle): the inner service is only
+/// called after the delay.
+struct HoldBack {
+    inner: Arc<tokio::sync::Mutex<tower::util::BoxService<Request<Bytes>, Response<Bytes>, anemo::Error>>>,
+    delay: Duration,
+}
+
+impl tower::Service<Request<Bytes>> for HoldBack {
+    type Response = Response<Bytes>;
+    type Error = anemo::Error;
+    type Future = Pin<Box<dyn Future<Output = Result<Response<Bytes>, anemo::Error>> + Send>>;
+    fn poll_ready(&mut self, _: &mut std::task::Context<'_>) -> std::task::Poll<Result<(), anemo::Error>> {
+        std::task::Poll::Ready(Ok(()))
+    }
+    fn call(&mut self, req: Request<Bytes>) -> Self::Future {
+        let (inner, delay) = (self.inner.clone(), self.delay);
+        Box::pin(async move {
+            tokio::time::sleep(delay).await;
+            let mut g = inner.lock().await;
+            futures::future::poll_fn(|cx| g.poll_ready(cx)).await?;
+            let fut = g.call(req);
+            drop(g);
+            fut.await
         })
     }
 }
